@@ -270,7 +270,11 @@ def run_loop(case):
                total_timesteps=int(rng.integers(60, 90)), learning_starts=8,
                batch_size=4, low=low.tolist(), high=high.tolist(), snapshots=False,
                logger=False, exploration_noise=float(rng.choice([0.3, 1.0, 2.0])),
-               noise_clip=0.5, policy_delay=2, target_delay=5)
+               # large smoothing noise against a small clip: the clip is active
+               # for most samples, so a widened / swapped clip is visible
+               noise_clip=float(rng.choice([0.05, 0.1])),
+               target_policy_noise=float(rng.choice([0.5, 1.0])),
+               policy_delay=2, target_delay=5)
     run = make_run(algo, cfg)
     tr = run.trace
     patches = []
@@ -336,8 +340,9 @@ def run_loop(case):
                 res.violation(f"C10/loop/target_out_of_bounds/{algo}",
                               "smoothed target action outside the bounds")
                 return res
+            # the configured noise_clip, not the one the sampler was built with
             if np.any(np.abs(a - np.asarray(e["base"], np.float64))
-                      > e["clip"] * scale + ulp + 1e-6 * scale):
+                      > cfg["noise_clip"] * scale + ulp + 1e-6 * scale):
                 res.violation(f"C10/loop/target_noise_exceeds_clip/{algo}",
                               "target smoothing noise exceeds noise_clip * "
                               "half-range")
